@@ -942,6 +942,23 @@ def FullStatement_transact_total_link : Prop :=
   ∀ (fuel : Nat) (w : World) (e : Evm.Env) (spec : Nat), WOk w → 2 * e.tx.gasLimit + 2 ≤ fuel →
     (∃ r, Evm.transact fuel w e spec = .ok r) ∨ (∃ err, Evm.transact fuel w e spec = .error err ∧ Soft err)
 
+/-- COROLLARY, in the shape of C01 `FullStatement_transact_total`: on the fresh world of a pre-state with 256-bit
+balances, with the fuel bound stated there, the answer is a result, or an error that is soft (code-store miss,
+precompile panic, oracle miss, fatal) or one of the five residual interpreter-side panics — and never "out of fuel".
+What separates this from `FullStatement_transact_total`: its `.error _ => False` for panics needs the five residual
+messages excluded (C25's invariant through the loop) and cannot hold for the precompile panic (C23) nor, without a
+consistent code store, for `code_by_hash`. -/
+theorem transact_total_fresh_partial (spec : Nat) (pre : List PreAcct) (dbHasStorage : Bool)
+    (oracle : List PcAnswer) (e : Evm.Env) (hbal : ∀ p ∈ pre, p.balance < W) :
+    match Evm.transact (2 * e.tx.gasLimit + 2) (Spec.Evm.freshWorld spec pre dbHasStorage oracle) e spec with
+    | .ok _ => True
+    | .error err => (Soft err ∨ Resid err) ∧ err ≠ .outOfFuel := by
+  have hw : WOk (Spec.Evm.freshWorld spec pre dbHasStorage oracle) :=
+    wok_fresh _ (GasCalc.canon spec) (fun _ => false) rfl hbal
+  rcases transact_total_partial (2 * e.tx.gasLimit + 2) _ e spec hw (Nat.le_refl _) with ⟨o, w', h, _⟩ | ⟨err, h, h1, h2⟩
+  · rw [h]; trivial
+  · rw [h]; exact ⟨h1, h2⟩
+
 /-- non-vacuity: the sample world is well formed -/
 example : WOk sampleWorld := wok_fresh sampleWorld 17 (fun _ => false) rfl (by
   intro p hp
